@@ -687,6 +687,51 @@ def _fpath_stat(self):
 FPath.stat = _fpath_stat
 
 
+class _OsPath:
+    @staticmethod
+    def getsize(p):
+        return FPath(p).stat().st_size
+
+    @staticmethod
+    def exists(p):
+        return FPath(p).exists()
+
+    @staticmethod
+    def isfile(p):
+        return str(p) in FPath.fs.files
+
+    @staticmethod
+    def isdir(p):
+        return str(FPath(p)) in FPath.fs.dirs
+
+    @staticmethod
+    def join(a, *b):
+        q = FPath(a)
+        for x in b:
+            q = q / x
+        return str(q)
+
+
+class _OsMod:
+    path = _OsPath
+
+    @staticmethod
+    def remove(p):
+        FPath(p).unlink()
+
+    unlink = remove
+
+    @staticmethod
+    def rmdir(p):
+        FPath(p).rmdir()
+
+    @staticmethod
+    def replace(a, b):
+        FPath(a).rename(b)
+
+    rename = replace
+
+
 def setup_sink():
     if symx.concrete_mode():
         return
@@ -698,6 +743,7 @@ def setup_sink():
     fsm.open = lambda p, mode="r": FFile(FPath.fs, p, mode)
     fsm.mmap = _MmapMod
     fsm.shutil = _ShutilMod
+    fsm.os = _OsMod  # os.path.getsize / exists / isfile on the fake file system, should the module use them
     fsm.len = lambda x: s_len(x.seg) if isinstance(x, FMmap) else s_len(x)
     shims.instrument(fsm, names=["isinstance"], scan=False)
 
